@@ -137,7 +137,12 @@ class _Interp:
         self.knots = np.array(desc["r"], dtype=float)
         self.lh = int(max(int(d) for d in ag.degrees) // 2)
         self.splines = ag.radial_component_splines(fv)
-        self.func = ag.interpolate(fv)
+        # the interpolant is built from a work array that held OTHER data in an earlier interpolate() call on the same
+        # grid and was re-filled in place: it must depend on the values, not on the array object
+        buf = np.array(fv[::-1], dtype=float) * 0.5 + 0.25
+        ag.interpolate(buf)
+        buf[...] = fv
+        self.func = ag.interpolate(buf)
         self.ls, self.nk = _norms(self.lh)
         # largest third derivative of every spline (piecewise constant: 6 * leading coefficient)
         self.s3max = np.array([6.0 * float(np.max(np.abs(s.c[0]))) for s in self.splines]) if self.splines else np.zeros(0)
